@@ -1,9 +1,159 @@
-import Driver.Util
-/-! driver ops of C13 (prefix `c13.`); filled in by the C13 work -/
+import Model.Bytes
+import Model.Xfr
+/-! driver ops of C13 (prefix `c13.`).
+
+`c13.run fix=<0|1> tr=<0|1> o=<name|none> t=<rdtype> s=<serial|none> u=<0|1> N=<name;name;…> Z=<rr;rr;…|-> M=<msg>|<msg>|…`
+  name  = comma separated hex labels (`-` = empty label), `@` = the empty name; lower-cased on input
+  rr    = `<owner index into N>:<rdtype>:<serial>.<body>`
+  rrset = `<owner index>:<rdtype>:<serial>.<body>,<serial>.<body>,…`
+  msg   = `<rcode>/<question: - or idx:type>/<rrset;rrset;… or ->`
+answers `T=<per message state or !>|… R=<ok|err:Class> Z=<= or sorted rr list or ->`.
+-/
 namespace Driver
-open Model
+open Model Model.Xfr
+
+namespace C13
+
+def splitC (s : String) (c : Char) : List String := s.splitOn (String.singleton c)
+
+def lowerOctet (c : Nat) : Nat := if 65 ≤ c ∧ c ≤ 90 then c + 32 else c
+
+def parseName (s : String) : Option Xfr.Name :=
+  if s = "@" then some []
+  else ((splitC s ',').mapM ofHex).map fun n => n.map (·.map lowerOctet)
+
+def parseOptNat (s : String) : Option (Option Nat) :=
+  if s = "none" then some none else s.toNat?.map some
+
+def parseRdata (s : String) : Option Rdata :=
+  match splitC s '.' with
+  | [a, b] => do some ⟨← a.toNat?, ← b.toNat?⟩
+  | _ => none
+
+def nameAt (names : List Xfr.Name) (i : Nat) : Option Xfr.Name := names[i]?
+
+def parseRRset (names : List Xfr.Name) (s : String) : Option RRset :=
+  match splitC s ':' with
+  | [i, t, ds] => do
+    let o ← nameAt names (← i.toNat?)
+    let t ← t.toNat?
+    let ds ← if ds = "" then some [] else (splitC ds ',').mapM parseRdata
+    some ⟨o, t, ds⟩
+  | _ => none
+
+def parseRR (names : List Xfr.Name) (s : String) : Option RR :=
+  match splitC s ':' with
+  | [i, t, d] => do
+    let o ← nameAt names (← i.toNat?)
+    some ⟨o, ← t.toNat?, ← parseRdata d⟩
+  | _ => none
+
+def parseList {α} (f : String → Option α) (s : String) (sep : Char) : Option (List α) :=
+  if s = "-" then some [] else (splitC s sep).mapM f
+
+def parseMsg (names : List Xfr.Name) (s : String) : Option Msg :=
+  match splitC s '/' with
+  | [rc, q, an] => do
+    let rc ← rc.toNat?
+    let q ← if q = "-" then some [] else
+      match splitC q ':' with
+      | [i, t] => do some [(← nameAt names (← i.toNat?), ← t.toNat?)]
+      | _ => none
+    let an ← parseList (parseRRset names) an ';'
+    some ⟨rc, q, an⟩
+  | _ => none
+
+def stripKey (key : String) (tok : String) : Option String :=
+  if tok.startsWith (key ++ "=") then some (tok.drop (key.length + 1)).toString else none
+
+/-- canonical record key: (owner index, rdtype, serial, body) -/
+def recKey (names : List Xfr.Name) (r : RR) : List Nat :=
+  [(names.findIdx? (· == r.owner)).getD 9999, r.rdtype, r.rdata.serial, r.rdata.body]
+
+def lexLt : List Nat → List Nat → Bool
+  | [], [] => false
+  | [], _ => true
+  | _, [] => false
+  | a :: as, b :: bs => if a < b then true else if b < a then false else lexLt as bs
+
+def insertSorted (k : List Nat) : List (List Nat) → List (List Nat)
+  | [] => [k]
+  | x :: xs => if k == x then x :: xs else if lexLt k x then k :: x :: xs else x :: insertSorted k xs
+
+def canonZone (names : List Xfr.Name) (z : Zone) : List (List Nat) :=
+  z.foldl (fun acc r => insertSorted (recKey names r) acc) []
+
+def showKey : List Nat → String
+  | [i, t, s, b] => s!"{i}:{t}:{s}.{b}"
+  | _ => "?"
+
+def showZone (ks : List (List Nat)) : String :=
+  if ks.isEmpty then "-" else ";".intercalate (ks.map showKey)
+
+def b01 (b : Bool) : String := if b then "1" else "0"
+
+def showState (s : Inbound) : String :=
+  let ser := match s.serial with | some n => toString n | none => "none"
+  s!"{b01 s.done}{b01 s.incremental}{b01 s.expectingSOA}{b01 s.deleteMode}:{ser}:{b01 s.txn.isSome}"
+
+/-- the same loop as `runLoop`, recording the state after every `process_message` -/
+def traceLoop (fix : Bool) (s : Inbound) : List Msg → List String → List String
+  | [], acc => acc
+  | m :: ms, acc =>
+    match procMessage fix s m with
+    | .error _ => acc ++ ["!"]
+    | .ok s' => if s'.done then acc ++ [showState s'] else traceLoop fix s' ms (acc ++ [showState s'])
+
+def runOp (toks : List String) : Option String :=
+  match toks with
+  | [fx, tr, o, t, s, u, ns, z, ms] => do
+    let fx ← stripKey "fix" fx
+    let tr ← stripKey "tr" tr
+    let o ← stripKey "o" o
+    let t ← (← stripKey "t" t).toNat?
+    let s ← parseOptNat (← stripKey "s" s)
+    let u ← stripKey "u" u
+    let names ← parseList parseName (← stripKey "N" ns) ';'
+    let z ← parseList (parseRR names) (← stripKey "Z" z) ';'
+    let msgs ← parseList (parseMsg names) (← stripKey "M" ms) '|'
+    let origin ← if o = "none" then some none else (parseName o).map some
+    let fix := fx = "1"
+    let cfg : Config := ⟨origin, t, s, u = "1"⟩
+    let out := run fix cfg z msgs
+    let tr := if tr = "1" then (match Inbound.init origin z t s (u = "1") with
+      | .error _ => []
+      | .ok s0 => traceLoop fix s0 msgs []) else []
+    let z0c := canonZone names z
+    let z1c := canonZone names out.zone
+    let zs := if z0c == z1c then "=" else showZone z1c
+    let r := match out.err with | none => "ok" | some e => "err:" ++ e.toString
+    some s!"T={"|".intercalate tr} R={r} Z={zs}"
+  | _ => none
+
+end C13
 
 def handleC13 : List String → Option String
+  | "c13.run" :: rest => C13.runOp rest
+  | ["c13.mkq", o, ns, z, s] => do
+    let o ← C13.stripKey "o" o
+    let names ← C13.parseList C13.parseName (← C13.stripKey "N" ns) ';'
+    let z ← C13.parseList (C13.parseRR names) (← C13.stripKey "Z" z) ';'
+    let s ← C13.stripKey "s" s
+    let origin ← if o = "none" then some none else (C13.parseName o).map some
+    let ser : Option Int ← if s = "none" then some none else s.toInt?.map some
+    some (match makeQuery origin z ser with
+      | .ok (t, sv) => s!"ok {t} {match sv with | some n => toString n | none => "none"}"
+      | .error e => "err:" ++ e.toString)
+  | ["c13.xs", qt, auth] => do
+    let qt ← qt.toNat?
+    let auth ← C13.parseOptNat auth
+    some (match extractSerial qt auth with
+      | .ok v => s!"ok {match v with | some n => toString n | none => "none"}"
+      | .error e => "err:" ++ e.toString)
+  | ["c13.scmp", a, b] => do
+    let a ← a.toNat?
+    let b ← b.toNat?
+    some s!"{C13.b01 (serialLt a b)}{C13.b01 (serialGt a b)}"
   | _ => none
 
 end Driver
